@@ -9,7 +9,9 @@ CONSTANTS Tier, MaxLen
 Quick == Tier = "quick"
 
 KOct == OctKey(32, "a", NONE, NONE)
-Nows == {W0, T0, W2p40}
+\* clocks: the epoch, now, far future - and the values a time API uses for something else ((time_t)-1 is also one
+\* second before the epoch; 1 and -2 are its neighbours)
+Nows == {W0, T0, W2p40, WOf(-1), WOf(-2), WOf(1)}
 Lees == {WOf(-1), W0, WOf(1), WOf(300), W2p31, W2p40}
 Deltas == {-2, -1, 0, 1, 2}
 Far == {WMin, WMax, WOf(-1), W0, W2p62, WOf(-2147483647)}
@@ -96,5 +98,14 @@ CbScripts ==
 
 \* boundary values that would leave the 64-bit range are dropped (per family: see ISpecFam in Interp.tla)
 OK(S) == { x \in S : \A i \in DOMAIN x : x[i].op = "Verify" => \A j \in DOMAIN x[i].tok.pay.m : InR(x[i].tok.pay.m[j][4]) }
+\* stage 'faults': every allocation request made inside jwt_checker_verify fails once on checkers with expectations
+\* (with and without a callback that edits the claims) handed tokens that fail them
+FaultScripts ==
+  { Setup(s) \o <<CClaimSetOp("iss", "me")>> \o cb \o
+    << VerifyOp(TokC(s, <<StrM("iss", "you")>>)), VerifyOp(TokC(s, <<>>)), VerifyOp(TokC(s, <<StrM("iss", "me"), IntM("exp", WSub(T0, WOf(5)))>>)),
+       VerifyOp(TokC(s, <<StrM("iss", "me"), IntM("nbf", WAdd(T0, WOf(5)))>>)), VerifyOp(TokC(s, <<StrM("iss", "me"), <<"exp", "str", "soon", W0>> >>)) >> :
+      s \in {TRUE, FALSE},
+      cb \in { <<>>, <<CSetCbOp(<<>>)>>, <<CSetCbOp(<<StepSet("clm", Val("str", "iss", "me", 1)), StepDel("clm", "exp"), StepDel("clm", "nbf")>>)>> } }
+MCSpecFault == ISpecFam(<<FaultScripts>>)
 MCSpec == ISpecFam(<<OK(LatticeScripts), OK(TypeScripts), OK(StrScripts), OK(SeqScripts), CbScripts>>)
 =============================================================================
